@@ -23,7 +23,8 @@ func TestMain(m *testing.M) {
 	lib.Extra("rule", "the GoChannel program generator of C04 biased towards held/delayed settlements, nack sequences and blocking mode (incl. subscriptions that cancel while holding an unsettled message and subscribers that publish to another topic before acking). "+
 		"Oracle over the history: while a message is unsettled nothing else becomes receivable on that subscription (observed by reading the channel during the hold window, for every buffer size and in persistent replay); "+
 		"in blocking mode, at the instant Publish returned every subscription that existed before the call started (and did not cancel) has an Ack of every message of the call in the history, each such subscription saw one publisher's messages in publish order, and every Publish returns within the liveness bound. "+
-		"Non-trivial: a held/delayed settlement with >=2 messages queued behind it, or a blocking Publish with >=1 Nack.")
+		"Non-trivial: a held/delayed settlement with >=2 messages queued behind it, or a blocking Publish with >=1 Nack."+
+		" Publish calls subscribers make while holding a message (follow-ups; every second one carries the held message's context) are recorded and, in blocking mode, judged by the same returned-only-after-the-acks rule.")
 	lib.Extra("assumptions", []string{
 		"'about to settle' is stamped before Ack/Nack is called, the Publish return after it: stamp order is consistent with real time (one atomic counter)",
 		"known finding C05-F1 is excluded by construction and reproduced separately",
